@@ -13,6 +13,7 @@ import findings
 import parcheck
 import protomc
 import fixmc
+import internmc
 
 # ---------------------------------------------------------------------------------------
 # sequential-engine properties (monitor: specs/core/CoreTrace.tla)
@@ -33,20 +34,20 @@ SEQ = {
     "C05": dict(mc=["lru"], families=["lru"], needs=["op:get", "drop", "we"],
                 rule="lru family: capacity 0..3 changed at run time, explicit eviction; non-trivial = values were "
                      "dropped and functions executed"),
-    "C06": dict(families=["struct"], needs=["new", "we", "op:set"],
+    "C06": dict(families=["struct", "structlru", "mixed"], needs=["new", "we", "op:set"],
                 rule="struct family; non-trivial = structs created and a write"),
     "C07": dict(families=["churn", "reclaim", "struct", "intern"], needs=["new", "int", "op:set"],
                 rule="churn family (conditional struct creation, interned revisions=1..3 with a coarse hash so that slots "
                      "are shared, long write-heavy histories); non-trivial = structs and interned values created and writes"),
-    "C08": dict(families=["intern", "churn", "reclaim"], par=["parintern"], needs=["int", "op:set"],
+    "C08": dict(families=["intern", "churn", "reclaim"], par=["parintern"], internmc=True, needs=["int", "op:set"],
                 rule="interning from several queries over a small value domain across revisions; non-trivial = interning "
                      "and a write in one history"),
-    "C09": dict(families=["churn", "reclaim", "intern"], needs=["int", "irec", "op:set"],
+    "C09": dict(families=["churn", "reclaim", "intern"], internmc=True, needs=["int", "irec", "op:set"],
                 rule="interned types with revisions=1,2,3,MAX; non-trivial = interning, an active-revision record and a write"),
     "C10": dict(families=["spec"], needs=["spec", "new", "op:set"],
                 rule="spec family: creators that specify / call the specifiable function in both orders; "
                      "non-trivial = a specify, a struct creation and a write"),
-    "C11": dict(families=["accum", "accchain"], scale=2, needs=["op:accum", "accv", "op:set"],
+    "C11": dict(families=["accum", "accchain", "accumlru"], scale=2, needs=["op:accum", "accv", "op:set"],
                 rule="accum family; non-trivial = accumulated() requested, values pushed and a write"),
     "C12": dict(families=["fix", "fixshape"], fixmc=True, needs=["wic", "op:set"],
                 rule="fix family: 1-4 mutually recursive functions with cycle_initial = bottom (0) over 3-bit sets, bodies are "
@@ -73,7 +74,7 @@ SEQ = {
 }
 
 PAR = {
-    "C16": dict(models=["syncproto"], par=["pardag", "parnest3"], needs=["hk:sync_claim", "we", "tstart"],
+    "C16": dict(models=["syncproto"], par=["pardag", "parnest3", "parlru"], needs=["hk:sync_claim", "we", "tstart"],
                 rule="pardag family: acyclic programs with shared sub-queries, 3 rounds (writes between rounds) of 2-4 real threads "
                      "on clones issuing 1-4 requests each, seeded schedule jitter; non-trivial = threads ran and functions executed"),
     "C17": dict(models=["syncproto"], par=["pardag", "parmemo"], monitors=("par",), needs=["hk:sync_claim", "we", "tstart"],
@@ -81,7 +82,7 @@ PAR = {
     "C18": dict(models=["syncproto", "syncxfer", "fixpoint"], par=["parfix", "parfb", "parnest3"], needs=["hk:sync_claim", "we", "tstart"],
                 rule="fixpoint / fallback cycle programs entered concurrently at different members from 2-4 threads; parnest3: chains of "
                      "4-6 fixpoint functions with back edges entered by 3-4 threads at distinct members (nested cycles across threads)"),
-    "C19": dict(models=["syncproto", "syncxfer"], par=["pardag", "parfix", "parfb", "parnest3", "parpcycle", "parwrite", "parcancel", "parpanic", "parpaniccancel"], monitors=("par", "sync"), needs=["hk:sync_claim", "tstart"],
+    "C19": dict(models=["syncproto", "syncxfer"], par=["pardag", "parfix", "parfb", "parnest3", "parpcycle", "parwrite", "parcancel", "parpanic", "parpaniccancel", "parlru"], monitors=("par", "sync"), needs=["hk:sync_claim", "tstart"],
                 rule="all parallel families; every protocol event (hook H1) is applied to the SyncOps protocol state and its guard "
                      "and the protocol invariants are evaluated; non-trivial = threads ran and claimed keys"),
     "C24": dict(models=["pagealloc"], par=["paralloc", "parstruct"], monitors=("par",), needs=["tstart", "new"],
@@ -142,6 +143,8 @@ def run_seq(pid, tier, seed, replay):
         mcinfo = run_mc_part(pid, cfg, tier, seed, binary, wd, results)
         if cfg.get("fixmc"):
             mcinfo = run_fixmc_part(pid, tier, seed, binary, wd, results, mcinfo)
+        if cfg.get("internmc"):
+            mcinfo = run_intern_part(pid, tier, seed, binary, wd, results, mcinfo)
         if cfg.get("fixmc_fb"):
             mcinfo = run_fixrev_part(pid, tier, seed, binary, wd, results, mcinfo, fb=True)
         fams = cfg["families"]
@@ -215,6 +218,34 @@ def run_fixmc_part(pid, tier, seed, binary, wd, results, info):
         log(f"DRIFT: salsa's sequence of body executions differs from the Fixpoint model's in {len(drift)} fetches "
             f"(not a property violation by itself). e.g. {json.dumps(drift[:1])}")
     return run_fixrev_part(pid, tier, seed, binary, wd, results, info, fb=False)
+
+
+def run_intern_part(pid, tier, seed, binary, wd, results, info):
+    """Exhaustive TLC run of specs/intern/Intern.tla + replay of its behaviours on the implementation
+    (executions and exact interned handles compared)."""
+    info = info or {"states": 0, "transitions": 0, "mc_models": [], "replayed_histories": 0, "replay_fetches_compared": 0,
+                    "drift": 0, "drift_samples": [], "exhaustive": True}
+    mc = internmc.run_mc(tier, wd)
+    jobs = internmc.replay_jobs(mc, 6000 if tier == "quick" else 60000, seed)
+    r = seqcheck.run_family(binary, "mc-intern", seed, 0, 0, wd, jobs=jobs)
+    checked, mism = internmc.compare(jobs, r["trace"])
+    results.append(r)
+    info["states"] += mc["distinct"]
+    info["transitions"] += mc["generated"]
+    info["mc_models"].append({"spec": "specs/intern/Intern.tla", "family": "mc-intern", "constants": mc["consts"],
+                              "distinct_states": mc["distinct"], "states_generated": mc["generated"], "depth": mc["depth"],
+                              "invariants": internmc.INVARIANTS, "leaf_histories_emitted": len(mc["replays"]),
+                              "replayed_on_impl": len(jobs), "wall_s": round(mc["wall_s"], 1)})
+    info["replayed_histories"] += len(jobs)
+    info["replay_fetches_compared"] += checked
+    info["drift"] += len(mism)
+    info["drift_samples"] += mism[:3]
+    log(f"[{pid}] MC intern: {mc['distinct']} distinct states, {len(mc['replays'])} behaviours, {len(jobs)} replayed on salsa, "
+        f"{checked} requests compared (executed?, slot, generation, value), differences={len(mism)} ({mc['wall_s']:.0f}s)")
+    if mism:
+        log(f"DRIFT: salsa's interner differs from the Intern model's prediction in {len(mism)} requests "
+            f"(not a property violation by itself). e.g. {json.dumps(mism[:1])}")
+    return info
 
 
 def run_fixrev_part(pid, tier, seed, binary, wd, results, info, fb, panics=False):
